@@ -304,6 +304,7 @@ impl C01 {
         }
         docs.push(pool.generated(&Family::TwoLeaf, 0));
         docs.push(pool.generated(&Family::TwoLeaf, 1));
+        docs.push(pool.generated(&Family::DeepTree, 0));
         docs.push(pool.generated(&Family::CyclicParents, 0));
         // complete single-fault enumeration targets: small documents
         let mut small: Vec<usize> = (0..docs.len()).filter(|&i| docs[i].bytes.len() <= 4096).collect();
